@@ -17,7 +17,8 @@ import json
 
 from .. import core, tlaval
 
-TEXTS = {'latin1': 'caf\xe9 \xfc', 'utf-8': 'caf\xe9 cafe\u0301 \u2126 日本',   # composed, decomposed, compatibility
+TEXTS = {'latin1': 'S\xc3\xa3o \xc2\xa9 \xc3\xa9',     # (latin1 text whose bytes happen to be well-formed UTF-8)
+         'utf-8': 'caf\xe9 cafe\u0301 \u2126 日本',   # composed, decomposed, compatibility
          'cp1252': '€ caf\xe9',
          'shift_jis': '日本語 \u301c\u2212\xa2\xa3\xac\u2016', 'utf-16': '\xe9 日',
          # characters on which a national charset and its vendor superset (cp932, gbk, cp949) disagree
@@ -315,6 +316,51 @@ def run_call(kind, cs, fault, at, children=(), outer='latin1'):
     return probs
 
 
+def check_custom_text_spec():
+    """A text meta type registered through the documented extension point, written with the
+    helpers the built-in text types use (encode_string / decode_string): it follows the file's
+    charset like they do."""
+    import mido
+    import mido.midifiles.meta as meta
+    out = []
+
+    class MetaSpec_vf_program_name(meta.MetaSpec):
+        type_byte = 0x08
+        attributes = ['name']
+        defaults = ['']
+
+        def decode(self, message, data):
+            message.name = meta.decode_string(data)
+
+        def encode(self, message):
+            return meta.encode_string(message.name)
+
+        def check(self, name, value):
+            meta.check_str(value)
+    try:
+        meta.add_meta_spec(MetaSpec_vf_program_name)
+        for cs in ('utf-8', 'shift_jis', 'cp1252', 'utf-16', 'latin1'):
+            text = TEXTS[cs]
+            mid = mido.MidiFile(charset=cs)
+            mid.tracks.append(mido.MidiTrack([mido.MetaMessage('vf_program_name', name=text, time=1),
+                                              mido.MetaMessage('text', text=text, time=1)]))
+            buf = io.BytesIO()
+            mid.save(file=buf)
+            data = buf.getvalue()
+            if data.count(text.encode(cs)) != 2:
+                out.append(('custom-text-spec/save-bytes/' + cs, 'the registered text type is not written in the charset of the file (%s)' % cs))
+                continue
+            back = mido.MidiFile(file=io.BytesIO(data), charset=cs).tracks[0]
+            if [getattr(m, 'name', getattr(m, 'text', None)) for m in back][:2] != [text, text] or back[0].type != 'vf_program_name':
+                out.append(('custom-text-spec/load-text/' + cs, 'loaded %s' % core.srepr(list(back))))
+            e = elsewhere()
+            if e:
+                out.append(('custom-text-spec/leak/' + cs, e))
+    except Exception as e:
+        out.append(('custom-text-spec/raises/%s' % type(e).__name__, repr(e)))
+    return out[:3]
+
+
 def reset_global():
     import mido.midifiles.meta as meta
     meta._charset = 'latin1'
@@ -369,6 +415,9 @@ def worker(lines):
 
 
 def replay(case):
+    if case.get('kind') == 'custom_text_spec':
+        v = check_custom_text_spec()
+        return v and '%s: %s' % v[0]
     r = run_behaviour([tuple(c) for c in case['calls']])
     return r and '%s: %s' % r
 
@@ -404,6 +453,9 @@ def run(ctx):
     ctx.add_tlc(res, 'CharsetScope Scoped=TRUE, two calls, consecutive or nested%s' % (
         '' if thorough else ' (3 charsets)'))
     pr.finish()
+    for key, msg in check_custom_text_spec():
+        ctx.violation('charset/' + key, {'kind': 'custom_text_spec'}, msg)
+    ctx.replayed += 5
     ctx.exhaustive = True
     ctx.constants = {'charsets': sorted(TEXTS), 'items_per_call': 3}
     ctx.assumptions += [
